@@ -520,19 +520,49 @@ func genSignedStructs(g *G, count int) {
 		}
 		// RouterInfo (only Ed25519 identities can verify)
 		rid := g.pickIdentity(true)
+		// forced rounds: an Ed25519 router whose options are NOT in key order on the wire (the signature covers
+		// the bytes as they are), two addresses, with and without peers
+		riForced := i < 3
+		if riForced {
+			rid = g.newIdentity(7, 4, false, nil)
+		}
 		rb := cat(rid.bytes, u64(r.next()>>uint(r.rng(1, 30))))
 		na := r.pick(0, 1, 1, 2, 3)
+		if riForced {
+			rb = cat(rid.bytes, u64(uint64(g.ts())*1000))
+			na = 2
+		}
 		rb = append(rb, byte(na))
 		for j := 0; j < na; j++ {
 			rb = append(rb, g.encRouterAddress()...)
 		}
-		rb = append(rb, byte(r.pick(0, 0, 0, 1, 255)))
-		rb = append(rb, g.optionsBytes()...)
+		npeers := r.pick(0, 0, 0, 1, 255)
+		if riForced {
+			npeers = 0
+		}
+		rb = append(rb, byte(npeers))
+		optAt := len(rb)
+		opts := g.optionsBytes()
+		if riForced {
+			opts = encMapping([][2][]byte{{[]byte("netId"), []byte("2")}, {[]byte("caps"), []byte("XfR")}, {[]byte("a.b"), []byte("9")}}[:2+i%2])
+		}
+		rb = append(rb, opts...)
 		for _, c := range g.adversary(nil, rb, rid.sg, nil) {
 			g.gen = "ri-" + c.tag
 			b, tag := g.maybeMutate(c.bytes, 0.15)
 			g.gen += tag
 			g.emit("readRI", hx(b))
+			g.emitExact("readRI", c.tag, tag, b, riForced)
+		}
+		if riForced {
+			// the two first option pairs exchanged after signing: same length, every byte still well-formed, but
+			// these are not the bytes the router signed
+			good := cat(rb, rid.sg.sign(rb))
+			p1 := encPair([]byte("netId"), []byte("2"))
+			p2 := encPair([]byte("caps"), []byte("XfR"))
+			sw := cat(good[:optAt+2], p2, p1, good[optAt+2+len(p1)+len(p2):])
+			g.gen = "ri-options-reordered-after-signing"
+			g.emit("readRI", hx(sw))
 		}
 		g.valid = false
 		if i < 2 || !g.quick() && i < 20 {
